@@ -39,6 +39,11 @@ REG_GHOST = {"quick": [dict(module="MC_Reg.tla", cfg="MC_Reg_ghost.cfg", workers
 STR_GHOST = {"quick": [dict(module="MC_Str.tla", cfg="MC_Str_ghost.cfg", workers=16, timeout=600)], "thorough": [dict(module="MC_Str.tla", cfg="MC_Str_ghost.cfg", workers=16, timeout=600)]}
 
 
+FEE_GRANT = {"quick": [dict(module="MC_Fee.tla", cfg="MC_Fee_grant.cfg", workers=16, timeout=600)], "thorough": [dict(module="MC_Fee.tla", cfg="MC_Fee_grant.cfg", workers=16, timeout=600)]}
+STR_DEEP = {"quick": [dict(module="MC_Str.tla", cfg="MC_Str_deep.cfg", workers=16, timeout=600)], "thorough": [dict(module="MC_Str.tla", cfg="MC_Str_deep.cfg", workers=16, timeout=600)]}
+REG_DEEP = {"quick": [dict(module="MC_Reg.tla", cfg="MC_Reg_deep.cfg", workers=16, timeout=900)], "thorough": [dict(module="MC_Reg.tla", cfg="MC_Reg_deep.cfg", workers=16, timeout=900)]}
+
+
 def both(*dicts):
     out = {"quick": [], "thorough": []}
     for d in dicts:
@@ -400,11 +405,11 @@ PLANS = {
                 assumptions=COMMON_ASSUME),
     "C04": dict(mc=both(FEE_MC, ENT_MC), sim=both(FEE_SIM, ENT_SIM), sweep=FEE_SWEEP, random=rnd("ent", (300, 3), (2000, 20)),
                 rule="TLC exhaustive on MC_Fee (orders completing, then fee-paying registry txs with every relation of locked/liquid to the fee, exact/higher/missing/multi-denomination fees, bad signatures, k-th message failing, sends to escrow); view = locked/spent books, totals, escrow balance, registered module invariant", assumptions=COMMON_ASSUME),
-    "C05": dict(mc=FEE_MC, sim=FEE_SIM, sweep=FEE_SWEEP, random=both(rnd("ent", (300, 4), (2000, 20)), rnd("mix", (200, 2), (1500, 10))),
+    "C05": dict(mc=both(FEE_MC, FEE_GRANT), sim=FEE_SIM, sweep=FEE_SWEEP, random=both(rnd("ent", (300, 4), (2000, 20)), rnd("mix", (200, 2), (1500, 10))),
                 rule="as C04 plus vesting purchasers in the random histories; monitors: locked drops only by min(fee, locked) in a registry tx of the payer and equals the spent increase; completion never raises spendable", assumptions=COMMON_ASSUME),
     "C02": dict(mc=both(FEE_MC), sim=both(FEE_SIM, ENT_SIM), sweep=both(FEE_SWEEP, AUTH_SWEEP), random=rnd("mix", (400, 3), (2500, 20)),
                 rule="supply and sum of ALL balances (iteration incl. unmodelled accounts) after every step of mixed histories; mint/burn events of every ABCI response equal the supply delta; supply changes only in BeginBlock by the completed orders' amounts", assumptions=COMMON_ASSUME),
-    "C13": dict(mc=both(REG_MC, STR_MC), sweep=AUTH_SWEEP, random=rnd("mix", (300, 2), (1500, 10)),
+    "C13": dict(mc=both(REG_MC, STR_MC, ENT_MC), sweep=AUTH_SWEEP, random=rnd("mix", (300, 2), (1500, 10)),
                 rule="TLC breadth-first sweep MC_Auth: every message type x every account as signer x every account as named address in three encodings (foreign key, proper signature, Exec wrapper) from a prepared state; each behaviour replayed on the real app; state digest before/after compared", assumptions=COMMON_ASSUME),
     "C14": dict(mc=both(FEE_MC, ENT_MC, ENT_GHOST), sim=both(FEE_SIM, ENT_SIM), sweep=both(FEE_SWEEP, PAR_SWEEP, AUTH_SWEEP), random=rnd("mix", (400, 3), (2500, 20)),
                 rule="begin/end block and commit wrapped in recover (a panic is the observation halted); failed and panicking txs compared on the full projection (only ante effects may remain); multi-message txs with the k-th message failing", assumptions=COMMON_ASSUME),
@@ -414,13 +419,13 @@ PLANS = {
                 rule="at every block boundary of the corpus the enterprise supply queries (SupplyOf every denomination, EnterpriseSupply, TotalUnlocked, TotalSupply with every page size in key and offset mode) are recorded and checked against bank supply and total locked of the same state", assumptions=COMMON_ASSUME),
     "C07": dict(mc=REG_MC, sim=REG_SIM, sweep=REG_SWEEP, random=rnd("reg", (300, 3), (2000, 20)),
                 rule="TLC exhaustive on MC_Reg (registrations, records at lower/equal/next/gapped/huge heights by owners and strangers, purchases incl. Exec-wrapped and huge, gov limit changes); TLC-simulated + seeded random schedules executed on the real app; every record ever accepted is re-queried after every step", assumptions=COMMON_ASSUME),
-    "C08": dict(mc=both(REG_MC, REG_GHOST), sim=REG_SIM, sweep=REG_SWEEP, random=rnd("reg", (300, 3), (2000, 20)),
+    "C08": dict(mc=both(REG_MC, REG_GHOST, REG_DEEP), sim=REG_SIM, sweep=REG_SWEEP, random=rnd("reg", (300, 3), (2000, 20)),
                 rule="as C07; view = counters, limits, reported storage, in-state key sets (point queries and store iteration)", assumptions=COMMON_ASSUME),
     "C09": dict(mc=REG_MC, sim=REG_SIM, sweep=REG_SWEEP, random=rnd("reg", (300, 3), (2000, 20)),
                 rule="as C07; view = ids, metadata of every registration ever made, owner-only writes", assumptions=COMMON_ASSUME),
     "C10": dict(arith=True, mc=both(STR_MC, STR_GHOST), sim=STR_SIM, sweep=STR_SWEEP, random=rnd("str", (300, 3), (2000, 20)),
                 rule="TLC exhaustive on MC_Str (create/claim/top-up/rate change/cancel, two denominations, time advances 0/sub-second/seconds/beyond zero time, gov fee changes, sends to escrow); schedules executed on the real app; escrow balance, every stream, balances of all parties and the registered module invariant compared after every step", assumptions=COMMON_ASSUME),
-    "C11": dict(arith=True, mc=STR_MC, sim=STR_SIM, sweep=STR_SWEEP, random=rnd("str", (300, 3), (2000, 20)),
+    "C11": dict(arith=True, mc=both(STR_MC, STR_DEEP), sim=STR_SIM, sweep=STR_SWEEP, random=rnd("str", (300, 3), (2000, 20)),
                 rule="as C10; view = deposit, last release time, deposit-zero time of every stream, claim responses; monitor Sustained. Big-number region (deposits to 2^200, rates to 2^63-1, durations of thousands of years, nanosecond block times): Apalache finds inputs on which a reading of the Go int64/uint64/Duration arithmetic (mc/ArithAsBuilt.tla) disagrees with StreamArith.tla in three input domains; witnesses + a boundary table are executed on the real app (one signed tx per block) and Apalache judges every recorded step against StreamArith.tla from the observed pre-state (ArithJudge.tla)", assumptions=COMMON_ASSUME + ARITH_ASSUME),
     "C12": dict(arith=True, mc=STR_MC, sim=STR_SIM, sweep=STR_SWEEP, random=rnd("str", (300, 3), (2000, 20)),
                 rule="as C10; monitors: a stream operation the specification accepts is not refused by the code, and no stream transaction panics; big-number region as for C11 (verdicts Panicked / Refused of claim, cancel and affordable top-up)", assumptions=COMMON_ASSUME + ARITH_ASSUME),
